@@ -148,7 +148,7 @@ class ProgGen:
             self.stats['while'] += 1
             self.nctr += 1
             ctr = 'c%d' % self.nctr
-            bound = r.randint(1, 4)
+            bound = r.randint(1, 4) if ctx['loops'] or r.random() < 0.8 else r.choice([6, 9, 13])       # outermost loops sometimes run longer
             ctx['types'][ctr] = 'n'
             cond = ('bin', '&&', ('group', ('bin', '<', ('var', ctr), num(bound))), self.cond(ctx))
             sub2 = dict(sub, loops=ctx['loops'] + ['while'])
